@@ -7,6 +7,7 @@ import GrogModel.Drv.Proto
 import GrogModel.Tree
 import GrogModel.Store
 import GrogModel.Remote
+import GrogModel.RemotePath
 open Lean
 
 namespace Grog.Drv.Stores
@@ -288,7 +289,19 @@ def remoteReplay : Handler := fun j => do
   pure (Json.mkObj [("accepted", Json.bool bad.isNone), ("at", match bad with | some i => Json.num i | none => Json.num (-1 : Int)),
     ("n", Json.num evs.length), ("visible", Json.arr vis.toArray), ("dangling", Json.arr dangling.toArray)])
 
+/-- {"op":"store.s3path","bucket","prefix","ws","calls":[[path,key],..]} → {"objects":[[bucket,key],..]} -/
+def objPath : Handler := fun j => do
+  let c : RemotePath.Cfg := ⟨← getBytes j "bucket", ← getBytes j "prefix", ← getBytes j "ws"⟩
+  let calls ← getArr j "calls"
+  let objs ← calls.toList.mapM (fun x => do
+    let a ← x.getArr?
+    let p ← asBytes (a[0]?.getD Json.null)
+    let k ← asBytes (a[1]?.getD Json.null)
+    let o := RemotePath.objectOf c p k
+    pure (Json.arr #[jBytes o.1, jBytes o.2]))
+  pure (Json.mkObj [("objects", Json.arr objs.toArray)])
+
 def handlers : List (String × Handler) :=
-  [("store.roundtrip", roundtrip), ("store.replay", replay), ("store.remotereplay", remoteReplay)]
+  [("store.roundtrip", roundtrip), ("store.replay", replay), ("store.remotereplay", remoteReplay), ("store.objpath", objPath)]
 
 end Grog.Drv.Stores
